@@ -46,8 +46,11 @@ class Run:
         self.assumptions = []
         self.notes = []
 
-    def violation(self, key, text, payload=None, finding_key=None):
-        self.violations.append({"key": key, "finding_key": finding_key or key, "text": text, "payload": payload or {}})
+    def violation(self, key, text, payload=None, finding_key=None, sampled=False):
+        """sampled: the obligation belongs to the seed-dependent part of the matrix (it exists for some seeds only), so
+        it cannot be in the frozen instance table; for such obligations the class key alone decides whether a listed
+        finding covers it"""
+        self.violations.append({"key": key, "finding_key": finding_key or key, "text": text, "payload": payload or {}, "sampled": sampled})
 
     def broke(self, text):
         self.broken.append(text)
@@ -65,7 +68,7 @@ class Run:
                 if pat is not None and re.fullmatch(pat, v["finding_key"]):
                     hit = e
                     break
-            if hit is not None and inst is not None and not freeze:
+            if hit is not None and inst is not None and not freeze and not v.get("sampled"):
                 # the finding is the recorded set of failing obligations, each with the recorded deviation: a new
                 # obligation of the same class, or a recorded one failing differently, is a different violation
                 rec = inst.get(hit.get("id"), {}).get(v["key"])
@@ -84,7 +87,8 @@ class Run:
             data = json.load(open(INSTANCES)) if os.path.exists(INSTANCES) else {}
             table = {}
             for v, e in listed:
-                table.setdefault(e.get("id"), {})[v["key"]] = signature(v["text"])
+                if not v.get("sampled"):
+                    table.setdefault(e.get("id"), {})[v["key"]] = signature(v["text"])
             data.setdefault(self.prop, {})[self.tier] = table
             with open(INSTANCES, "w") as f:
                 json.dump(data, f, indent=0, sort_keys=True)
